@@ -17,7 +17,7 @@ RULE = (
     "Predicate trees: ALL formulas with <=2 binary connectives (&,|) over <=3 distinct atoms with optional negation of each literal (both association shapes), ALL OR-of-AND shapes with 2-3 "
     "branches of 1-2 ordered literals over the 4 base atoms (common conjunct in all / some / no branches), stacked filters [p][q][r]. Contexts: plain, projection before/after, assign, "
     "rename, fillna, astype, reset_index (incl. predicate on the former index), to_frame, sort_values, set_index, shuffle, repartition, concat, second consumer of the filtered frame, "
-    "and merge: how in {inner,left,right,outer,leftsemi} x predicate side {left-only, right-only, key, both, suffixed x_x/x_y} x suffixes {default, ('','_r')} with unmatched and null keys "
+    "and merge: how in {inner,left,right,outer,leftsemi} x predicate side {left-only, right-only, key, both, suffixed x_x/x_y} x suffixes {default, ('','_r'), ('_l','')} with unmatched and null keys "
     "on both sides. Oracle: rid multiset after optimize() (simplified-logical and fused stages) == pandas selection on the unfiltered context output. "
     "non-trivial = simplify changed the plan (the filter was moved / restructured); distinct by (context, predicate)"
 )
@@ -245,7 +245,7 @@ def systematic(tier):
             if how == "leftsemi" and side in ("right-only", "both", "suffixed"):
                 continue
             for f in preds:
-                for suffixes in (None, ["", "_r"]):
+                for suffixes in (None, ["", "_r"], ["_l", ""]):
                     if suffixes and side not in ("suffixed", "left-only", "both"):
                         continue
                     for second in (False, True):
